@@ -55,7 +55,18 @@ def cases(draw, tier):
     for _ in range(draw(st.integers(0, 4))):
         prog.append(draw(builder_instr()))
     for _ in range(draw(st.integers(1, 6 if tier == "quick" else 10))):
-        if draw(st.integers(0, 5)) == 0:
+        k = draw(st.integers(0, 6))
+        if k == 6:
+            # canonical state, then a one-site operator on an end (or any) site, then another gauge move: only that site lost
+            # its isometry, which the next ensure_* call has to notice
+            a = draw(st.integers(0, 9))
+            prog.append({"op": draw(st.sampled_from(["ensure_left", "ensure_right"])), "a": a, "on": "S"})
+            prog.append({"op": "local_op", "a": a, "where": draw(st.integers(0, 2)), "site": draw(st.integers(0, 6)),
+                         "blk": draw(st.integers(0, 9)), "fac": draw(st.sampled_from([1.5, -0.5, 2.0]))})
+            g = draw(chain.gauge_instr("S"))
+            g["a"] = -1
+            prog.append(g)
+        elif k == 0:
             prog.append(draw(builder_instr()))
         elif draw(st.integers(0, 7)) == 0:
             prog.append({"op": "vcompress", "o": draw(st.integers(0, 9)), "a": draw(st.integers(0, 9)),
